@@ -70,6 +70,9 @@ def main():
         finally:
             sh("git -C /repo checkout -- .")
             sh("/venv/bin/python harness/gen_tables.py", cwd=V, env={"PYTHONPATH": "/repo"})
+            # the evidence files must describe the unchanged tree: regenerate them
+            for pid in pids:
+                sh("./check %s --tier quick" % pid, cwd=V, timeout=3000)
         report["checks"] = verdicts
         report["detected_by"] = [p for p, v in verdicts.items() if v["exit"] == 1]
     meta["verif"] = report
